@@ -213,9 +213,46 @@ def r3(ctx, prog):
     ctx.ob('C11.R3', '%s|cleanup-after-join' % f.name, ok, 'Stop() cleans apps then ctx after the loop thread was joined', where=f.loc(f.body))
 
 
+def r4(ctx, prog):
+    ctx.rule('C11.R4', 'A4 undo is total on the module\'s own state: stop() and cleanup() — the operations the rollback of a failed start()/initialize() and the parent\'s '
+             'sweeps rely on — refuse only on a test of the module\'s own state_; every early return in front of the child sweep and the hook is guarded by conditions '
+             'that mention nothing else (no parent state, no caller identity), and so are the refusals a helper reports back', floor=2)
+    MODC = 'tbox::main::Module'
+    for name, hook in (('stop', 'onStop'), ('cleanup', 'onCleanup')):
+        f = prog.fn1(MODC + '::' + name)
+        hk = [c for c in f.calls() if c.get('fn') == hook]
+        if not hk:
+            raise AnalysisBroken('Module::%s: call of %s not found' % (name, hook))
+        hp = q.pt(f, hk[0])
+        bad = []
+        for r in q.returns(f):
+            rp = q.pt_or_term(f, r)
+            if rp is None or f.cfg.exists_path(hp, rp):
+                continue        # a return after the hook
+            for cond, k, b in f.cfg.controlling_branches(rp):
+                flds = {x.split('::')[-1] for x in q.subtree_fields(f, cond)}
+                calls = [c for c in q.subtree_calls(f, cond)]
+                # helpers of the class are looked into: what do they read?
+                for c in calls:
+                    for g in prog.by_usr.get(c.get('usr'), ()):
+                        if g.cls == MODC:
+                            for st in g.stmts:
+                                if st and st['k'] == 'MemberExpr' and st.get('mk') == 'field':
+                                    base = g.s(g.strip_casts(st['ch'][0])) if st.get('ch') else None
+                                    flds.add(('this.' if (base is None or base['k'] == 'CXXThisExpr') else 'other.') + st['n'])
+                other = sorted(x for x in flds if x not in ('state_', 'this.state_'))
+                if other or any(not any(g.cls == MODC for g in prog.by_usr.get(c.get('usr'), ())) for c in calls):
+                    bad.append((r, other))
+        ctx.ob('C11.R4', 'Module::%s|total-on-own-state' % name, not bad, '%s() refuses only on its own state_' % name if not bad else
+               '%s() has an early return (%s) that depends on %s: the rollback of a failed start and the parent\'s %s sweep call it expecting a running module to be stopped '
+               'whatever else holds — a module refused here stays started while its parent\'s %s and onCleanup hooks run' %
+               (name, f.loc(bad[0][0]['i']), bad[0][1] or 'a call outside the class', name, hook), where=f.loc(bad[0][0]['i']) if bad else f.loc(f.body))
+
+
 def run(ctx):
     prog = extract('ALL' if ctx.tier == 'thorough' else SCOPE)
     ctx.guard(r1, ctx, prog)
     ctx.guard(r2, ctx, prog)
     ctx.guard(r3, ctx, prog)
+    ctx.guard(r4, ctx, prog)
     return prog
